@@ -1058,7 +1058,7 @@ def show(t, depth: int = 0) -> str:
     r = lambda x: show(x, depth + 1)  # noqa: E731
     if op == "self":
         return "self"
-    if op == "param":
+    if op in ("param", "sym"):
         return t[1]
     if op == "const":
         return repr(t[1])
